@@ -101,8 +101,8 @@ class StatefulLearner:
        fmt: 'ap' -> (action, prob) ; 'pmf' -> PMF ; 'kw' -> (action, prob, {'h': ...}) ; 'a' -> bare action
        fail = ('predict'|'learn'|'params', k): raise InjectedFailure at the k-th call (0-based) of that method."""
     def __init__(self, tag, fmt="ap", fail=None):
-        self.info = fmt == "info"                  # 'info': (action, prob) + writes CobaContext.learning_info in predict
-        if self.info: fmt = "ap"
+        self.info = True                           # every stateful learner writes CobaContext.learning_info in predict
+        if fmt == "info": fmt = "ap"
         self.tag, self.fmt, self.fail = tag, fmt, fail
         self.h, self.n_pred, self.n_learn = 0, 0, 0
     @property
@@ -144,7 +144,8 @@ class RecEvaluator:
         if self.side: _append(self.side, f"EVAL {etag} {ltag} {self.tag} {os.getpid()}")
         seed = CobaContext.store.get("experiment_seed")
         sl = SafeLearner(learner, seed)
-        for i, inter in enumerate(environment.read()):
+        from coba.environments import Unbatch
+        for i, inter in enumerate(Unbatch().filter(environment.read())):
             if i >= self.nrows: break
             if self.fail_after is not None and i == self.fail_after: raise InjectedFailure(f"evaluator-evaluate tag={self.tag}")
             a, p, kw = sl.predict(inter["context"], inter["actions"])
